@@ -63,7 +63,7 @@ def _(E, m, a, c0): return a[0]
 def _(E, m, a, c0): return Opaque('fmtargs')
 @pattern(r'<(i64|BigInt|u64|usize|i32|u8|u32|isize) as (?:std::fmt::)?(Display|LowerHex|UpperHex|Binary|Octal|Debug)>::fmt')
 def _(E, m, a, c0):
-    E.log.append(('fmt', m.group(2), E.deref(a[0]))); return ok(UNIT)
+    E.log.append(('fmt', m.group(2), E.deref(a[0]), m.group(1))); return ok(UNIT)
 @pattern(r'(?:std::fmt::)?Formatter::.*')
 def _(E, m, a, c0): return ok(UNIT)
 @pattern(r'<(str|String|&str) as ToString>::to_string|<String as Clone>::clone|<String as From<&str>>::from|<str as ToOwned>::to_owned|str::<impl str>::to_owned|<&str as Into<String>>::into|<String as From<&String>>::from')
@@ -440,7 +440,7 @@ def _(E, m, a, c0):
     if E.branch(lo < hi):
         if not z3.is_int_value(z3.simplify(hi)):
             key = ('rangeiter', str(hi)); E.log.append(key)
-            if sum(1 for l in E.log if l == key) > 4: raise Missing('loop over a range with a symbolic bound: more than 4 iterations')
+            if sum(1 for l in E.log if l == key) > 8: raise Missing('loop over a range with a symbolic bound: more than 8 iterations')
         E.wr(a[0], Adt(r.ty, None, [z3.simplify(lo + 1), hi])); return opt(lo)
     return opt()
 @pattern(r'<(std::ops::)?Range<(usize|i64|i32|u32|isize|u64)> as IntoIterator>::into_iter')
